@@ -14,3 +14,9 @@ package execext
 //@   loop 1 invariant len(opts.PosixOpts) >= 1 && opts.PosixOpts[len(opts.PosixOpts) - 1] == "e"   [C03]
 //@   modifies heap
 //@   preserves $RUNDATA
+
+// ---- C16: expanding a task dir or include location never indexes an empty word list -----------------------
+//@ func ExpandLiteral
+//@   sweep                                                                                                     [C16]
+//@ func ExpandFields
+//@   sweep                                                                                                     [C16]
